@@ -15,6 +15,7 @@ import YalafiVerif.Proofs.Scanner
 import YalafiVerif.Proofs.Utils
 import YalafiVerif.Proofs.PlainVerb
 import YalafiVerif.Generated.Init
+import YalafiVerif.Properties.PlainMathOpenStmt
 namespace Yalafi
 
 theorem C08_latexError_mark (T : Tables) (err : Str) (pos n : Nat) :
